@@ -19,7 +19,8 @@ Inductive ty :=
 | TBool | TInt (bits : N) | TUint (bits : N) | TString | TIface
 | TPtr (t : ty) | TSlice (t : ty) | TArr (n : nat) (t : ty) | TMap (t : ty)
 | TStruct (fs : list (list N * ty))
-| TBytes.                                (* []byte; its values are those of TSlice (TUint 8) *)
+| TBytes                                 (* []byte; its values are those of TSlice (TUint 8) *)
+| TMapI (signed : bool) (bits : N) (t : ty).   (* map[intN]T / map[uintN]T; in a value the keys are the decimal texts Marshal writes *)
 
 (* what an interface{} holds after decoding (UseNumber): the document itself, strings decoded, the last of equal keys *)
 Inductive gen :=
@@ -39,7 +40,7 @@ Fixpoint zero (t : ty) : gv :=
   | TBool => VBool false
   | TInt _ | TUint _ => VInt 0
   | TString => VStr []
-  | TIface | TPtr _ | TSlice _ | TMap _ | TBytes => VNil
+  | TIface | TPtr _ | TSlice _ | TMap _ | TBytes | TMapI _ _ _ => VNil
   | TArr n e => VArr (repeat (zero e) n)
   | TStruct fs => VStruct (map (fun kt : list N * ty => zero (snd kt)) fs)
   end.
@@ -121,6 +122,27 @@ Definition int_of (signed : bool) (bits : N) (raw : list N) : option Z :=
   | _ => None
   end.
 
+(* integer map keys.  Marshal writes the key with the integer printer between quotes; Unmarshal hands the contents of
+   the key string to strconv.ParseInt / ParseUint (base 10, the width of the key type): an optional sign for signed
+   keys, then digits only, leading zeros allowed, the value inside the range *)
+Definition int_key (signed : bool) (bits : N) (z : Z) : list N :=
+  if signed then append_int bits (Z.to_N (z mod 2 ^ Z.of_N bits)) else append_uint bits (Z.to_N z).
+Definition all_digits (s : list N) : bool :=
+  match s with [] => false | _ => forallb (fun c => (48 <=? c) && (c <=? 57)) s end.
+Definition key_int (signed : bool) (bits : N) (s : list N) : option Z :=
+  let '(neg, body) := match s with
+                      | 45 :: r => if signed then (true, r) else (false, s)
+                      | 43 :: r => if signed then (false, r) else (false, s)
+                      | _ => (false, s)
+                      end in
+  if all_digits body then
+    let z := if neg then (- Z.of_N (dec_N body))%Z else Z.of_N (dec_N body) in
+    if in_range signed bits z then Some z else None
+  else None.
+(* a key as a map value holds it *)
+Definition canon_key (signed : bool) (bits : N) (k : list N) : bool :=
+  match key_int signed bits k with Some z => list_eqb k (int_key signed bits z) | None => false end.
+
 (* the loops of the container decoders, over the decoder of the element *)
 Section Loops.
   Variable decf : jv -> gv -> dres.   (* element document, value to start from *)
@@ -166,6 +188,25 @@ Section Loops.
             end
         end
     end.
+  (* map with integer keys: the key text is parsed, the member is stored under the integer (here: its printed form) *)
+  Variable keyf : list N -> option (list N).
+  Fixpoint map_loop_k (l : list (list N * bool * jv)) (m : list (list N * gv)) : dres :=
+    match l with
+    | [] => DOk (VMap m)
+    | (k, _, x) :: r =>
+        match unq k with
+        | None => DErr
+        | Some k' =>
+            match keyf k' with
+            | None => DErr
+            | Some kk =>
+                match decf x z with
+                | DOk v => map_loop_k r (set_key kk v m)
+                | other => other
+                end
+            end
+        end
+    end.
 End Loops.
 
 (* struct: members in document order; an unknown key is skipped; a repeated key decodes into what the first left *)
@@ -193,7 +234,7 @@ Fixpoint dec (fuel : nat) (t : ty) (d : jv) (init : gv) : dres :=
   | S f =>
       if is_null d then
         match t with
-        | TIface | TPtr _ | TSlice _ | TMap _ | TBytes => DOk VNil
+        | TIface | TPtr _ | TSlice _ | TMap _ | TBytes | TMapI _ _ _ => DOk VNil
         | _ => DOk init
         end
       else
@@ -223,6 +264,13 @@ Fixpoint dec (fuel : nat) (t : ty) (d : jv) (init : gv) : dres :=
       | TStruct fs =>
           match d with
           | JObj l => struct_loop (dec f) fs l (match init with VStruct o => o | _ => map (fun kt : list N * ty => zero (snd kt)) fs end)
+          | _ => DErr
+          end
+      | TMapI signed bits e =>
+          match d with
+          | JObj l => map_loop_k (dec f e) (zero e)
+                        (fun k' => match key_int signed bits k' with Some z => Some (int_key signed bits z) | None => None end)
+                        l (match init with VMap o => o | _ => [] end)
           | _ => DErr
           end
       | TBytes =>
@@ -263,11 +311,14 @@ Fixpoint has_type (t : ty) (v : gv) : bool :=
          end) fs l
   | TBytes, VNil => true
   | TBytes, VSlice l => forallb (fun x => match x with VInt z => in_range false 8 z | _ => false end) l
+  | TMapI _ _ _, VNil => true
+  | TMapI signed bits e, VMap l => forallb (fun kv : list N * gv => canon_key signed bits (fst kv) && has_type e (snd kv)) l
   | _, _ => false
   end.
 
 (* ---- wire formats of the harness ----
-   type:  b | i<bits>: | u<bits>: | s | f | y | p<ty> | l<ty> | a<n>:<ty> | m<ty> | r<count>:(<len>:<key><ty>)*
+   type:  b | i<bits>: | u<bits>: | s | f | y | p<ty> | l<ty> | a<n>:<ty> | m<ty> | k<bits>:<ty> (signed keys) | K<bits>:<ty> (unsigned) |
+          r<count>:(<len>:<key><ty>)*
    value: Z | T | F | I<len>:<decimal, may start with -> | S<len>:<bytes> | P<v> | L<count>:<v>* | A<count>:<v>* |
           M<count>:(<len>:<key><v>)* | R<count>:<v>* | G<gen>
    gen:   n | t | f | #<len>:<raw> | $<len>:<bytes> | [<count>:<gen>* | {<count>:(<len>:<key><gen>)*          *)
@@ -290,6 +341,11 @@ Fixpoint parse_ty (fuel : nat) (l : list N) : option (ty * list N) :=
           else if c =? 97 then
             match take_num r 0 20 with
             | Some (n, r1) => match parse_ty f r1 with Some (e, r') => Some (TArr n e, r') | None => None end
+            | None => None
+            end
+          else if (c =? 107) || (c =? 75) then
+            match take_num r 0 20 with
+            | Some (n, r1) => match parse_ty f r1 with Some (e, r') => Some (TMapI (c =? 107) (N.of_nat n) e, r') | None => None end
             | None => None
             end
           else if c =? 114 then
@@ -463,7 +519,7 @@ Fixpoint show_gv (v : gv) : list N :=
 
 Fixpoint ty_size (t : ty) : nat :=
   match t with
-  | TPtr e | TSlice e | TArr _ e | TMap e => S (ty_size e)
+  | TPtr e | TSlice e | TArr _ e | TMap e | TMapI _ _ e => S (ty_size e)
   | TStruct fs => S (fold_right (fun kt a => (ty_size (snd kt) + a)%nat) O fs)
   | _ => 1%nat
   end.
